@@ -3,9 +3,11 @@ from __future__ import annotations
 
 import ast
 
+from ..pattern import pmatch, pfind, pall
+
 from ..absval import Undecided, eval_expr, truth_table
 from ..cfg import CFG, ENTRY
-from ..core import (AnalysisError, call_name, dotted, is_const, local_defs, norm, origin, parent_map,
+from ..core import (alpha, AnalysisError, call_name, dotted, is_const, local_defs, norm, origin, parent_map,
                     walk_local)
 from ..facts import guards_of, returns_of, enclosing_loops, assigned_subscripts, conjuncts
 
@@ -207,9 +209,16 @@ def pairing_remove(rep):
                        {"strips": [norm(c)[:50] for c in strip], "wrong_side": [norm(c)[:50] for c in wrong], "index_updates": len(dis)}, node=lp)
                 found.add(side)
                 # emptied reactions are removed through remove_rxn
-                rm = [n for n in walk_local(lp) if isinstance(n, ast.Call) and call_name(n) == "add" and "to_remove" in norm(n.func)]
+                # the edge object edited in this loop: $e = self.edges[<loop var>]
+                ev = [b_["e"] for _, b_ in pfind(f"$e = self.edges[{var}]", lp)]
+                e_ = ev[0] if ev else "?"
+                # the set whose members are later handed to remove_rxn
+                rm_sets = {norm(l2.iter) for l2 in walk_local(fi.node) if isinstance(l2, ast.For)
+                           and any(isinstance(c2, ast.Call) and norm(c2.func) == "self.remove_rxn" and c2.args and norm(c2.args[0]) == norm(l2.target) for c2 in walk_local(l2))}
+                rm = [n for n in walk_local(lp) if isinstance(n, ast.Call) and call_name(n) == "add" and isinstance(n.func, ast.Attribute)
+                      and norm(n.func.value) in rm_sets and n.args and norm(n.args[0]) == var]
                 gtx = [conjuncts(t) for c in rm for t, s in guards_of(pm, c, lp) if s]
-                rep.ob("O15.2", "R6b", fi, bool(rm) and ["note.products.data", "note.reactants.data"] in gtx, rm[0] if rm else lp,
+                rep.ob("O15.2", "R6b", fi, bool(rm) and [f"not{e_}.products.data", f"not{e_}.reactants.data"] in gtx, alpha(rm[0], fi.node) if rm else lp,
                        "a reaction left with no reactant and no product is scheduled for removal", node=rm[0] if rm else lp)
     for side in SIDE_INDEX:
         if side not in found:
@@ -326,10 +335,20 @@ def merge_copy(rep):
     if adds:
         c = adds[0]
         txt = norm(c)
-        ok = "e.reactants" in norm(c.args[0]) and "e.products" in norm(c.args[1]) and "products" not in norm(c.args[0]) and "reactants" not in norm(c.args[1])
+        lps_ = enclosing_loops(parent_map(fi.node), c, fi.node)
+        ev = norm(lps_[0].target) if lps_ else "?"
+        ok = len(c.args) >= 2 and f"{ev}.reactants" in norm(c.args[0]) and f"{ev}.products" in norm(c.args[1]) and "products" not in norm(c.args[0]) and "reactants" not in norm(c.args[1]) \
+            and bool(lps_) and norm(lps_[0].iter) == f"{fi.params[1]}.edge_list()"
         rep.ob("O15.4", "SHAPE", fi, ok, c.func, "merge keeps reactants as reactants and products as products", node=c)
         from ..core import kwarg
-        rep.ob("O15.4", "SHAPE", fi, norm(kwarg(c, "rule") or ast.Constant(None)) == "rule" and norm(kwarg(c, "edge_id") or ast.Constant(None)) == "new_id",
+        md = local_defs(fi.node)
+        rk, ik = kwarg(c, "rule"), kwarg(c, "edge_id")
+        okf = isinstance(rk, ast.Name) and isinstance(ik, ast.Name) and \
+            any(pmatch(f"getattr({ev}, 'rule', $$d)", d_.value) is not None for d_ in md.get(rk.id, []) if d_.value is not None) and \
+            any(pmatch(f"getattr({ev}, 'id', None)", d_.value) is not None for d_ in md.get(ik.id, []) if d_.value is not None) and \
+            all(pmatch(f"getattr({ev}, 'id', None)", d_.value) is not None or pmatch(f"self._next_edge_id_for_rule({rk.id})", d_.value) is not None
+                for d_ in md.get(ik.id, []) if d_.value is not None)
+        rep.ob("O15.4", "SHAPE", fi, okf,
                c.func, "merge forwards the rule and the chosen id", node=c)
     cp = rep.f(HG, CLS + "copy")
     rets = returns_of(cp.node)
@@ -366,7 +385,8 @@ def rxnside(rep):
         fi = rep.f(RX, q)
         pm = parent_map(fi.node)
         for t, v, st in assigned_subscripts(fi.node):
-            if norm(t.value) != "out" or not isinstance(v, ast.BinOp):
+            # accumulation into a local dict: $o[k] = $o.get(k, 0) + <coefficient>
+            if not isinstance(t.value, ast.Name) or not isinstance(v, ast.BinOp) or pmatch("$o[$$k] = $o.get($$k, 0) + $$inc", st) is None:
                 continue
             inc = v.right
             if isinstance(inc, ast.Constant):
@@ -399,7 +419,8 @@ def rxnside(rep):
     ok = None
     if ifs:
         try:
-            tt = truth_table(ifs[0].test, "c", [-1, 0, 1, 2])
+            cv = [b_["c"] for _, b_ in pfind(f"$c = int({si.params[2]})", si.node)]
+            tt = truth_table(ifs[0].test, cv[0] if cv else si.params[2], [-1, 0, 1, 2])
             ok = tt == {-1: True, 0: True, 1: False, 2: False} and "pop" in norm(ifs[0].body[0])
         except Undecided:
             ok = None
